@@ -792,6 +792,7 @@ impl<'a> Tr<'a> {
         let t = self.fresh("t");
         let fuel = if rf.fuel {
             self.uses_fuel = true;
+            self.fuel_uses += 1;
             " fuel"
         } else {
             ""
